@@ -291,8 +291,20 @@ func (p *Prop[C]) Eval(c C) (r *R) {
 		}
 	}()
 	p.check(c, r)
+	if r.V == nil && !r.Skip {
+		for _, f := range PostEval {
+			if kind, msg := f(); kind != "" {
+				r.V = &Violation{Kind: kind, Msg: msg}
+				break
+			}
+		}
+	}
 	return r
 }
+
+// PostEval hooks run after every evaluated case (e.g. gen's guarded-input check); the first
+// one that returns a non-empty kind turns the case into a violation.
+var PostEval []func() (kind, msg string)
 
 func trimStack(b []byte) string {
 	s := string(b)
